@@ -152,6 +152,10 @@ func battery() []Case {
 		"w-iface temps=2 names=2 prep=1 D.t1.i.a.0,T.t1.a,T.b.a,T.t2.a",
 		"w-discard temps=2 names=2 prep=1 D.t1.f.a.0,D.t1.c.a.0,D.t1.i.a.0,T.t1.a,X.t1,T.t1.a",
 		"w-collide temps=2 names=2 prep=1 D.t1.f.a.0,D.t1.c.a.0,T.t1.a,D.t2.f.a.0,D.t2.c.a.0,T.t2.a,D.b.f.a.0,D.b.c.a.0,T.b.a",
+		"w-sput temps=2 names=2 prep=1 D.t1.c.a.0,T.t1.a,T.b.a,T.t2.a,D.t2.c.a.1,T.t2.a,T.t1.a,D.b.c.a.0,T.b.a,T.t1.a",
+		"w-eval temps=2 names=2 prep=1 D.t1.c.a.6,D.t1.i.a.4,D.t1.f.a.5,D.b.c.b.6,D.b.f.b.5,D.t2.c.b.6,X.t1,T.t1.*",
+		"w-autoload-c temps=2 names=2 prep=1 D.t1.c.a.7,D.b.c.b.7,D.t2.c.b.7,D.t2.c.a.7,X.t1,T.t1.*",
+		"w-autoload-i temps=2 names=2 prep=1 D.t1.i.a.5,D.b.i.b.5,D.t2.i.b.5,D.t2.i.a.5,X.t1,T.t1.*",
 		"w-noprep-get temps=2 names=2 prep=0 G.t1.a",
 		"w-noprep-def temps=2 names=2 prep=0 D.b.c.a.0,G.t1.a,D.t1.c.b.0,G.t1.b,G.t2.b",
 		"w-noprep-script temps=2 names=2 prep=0 D.b.f.a.0,C.t1.a,N.t1.a,L.t1.c.b",
@@ -232,6 +236,9 @@ func runChunks(e *lib.Env, label string, cases []Case, off []string, tot *totals
 	for _, c := range cases {
 		byID[c.ID] = c
 	}
+	if chunkSize > 400 {
+		chunkSize = 400 // bounded worker lifetime: whatever origami retains process-wide stays small
+	}
 	nChunks := (len(cases) + chunkSize - 1) / chunkSize
 	offArg := strings.Join(off, ",")
 	if offArg == "" {
@@ -253,7 +260,8 @@ func runChunks(e *lib.Env, label string, cases []Case, off []string, tot *totals
 			r := lib.RunProc(lib.ProcSpec{
 				Argv:    []string{os.Args[0], "worker", base + ".in", base + ".out", base + ".d", offArg},
 				Dir:     e.Scratch,
-				Timeout: 4 * time.Hour, // hang guard only (a loaded machine makes a chunk 10x slower)
+				Env:     []string{"GOMAXPROCS=2"}, // 16 workers run side by side; forced collections with 16 GC threads each only burn CPU
+				Timeout: 4 * time.Hour,            // hang guard only (a loaded machine makes a chunk 10x slower)
 			})
 			done := map[string]bool{}
 			begun := ""
